@@ -22,7 +22,7 @@ ASSUMPTIONS = [
     "under those names (a refactor that removes them only drops that scope, reported as a cap)",
 ]
 
-NONINDEX = ["[F]", "[=O]"]
+NONINDEX = ["[F]", "[=O]", "[epsilon]"]     # any symbol outside the sixteen is digit 0, also the one that is a rule of its own
 DIGITS = misc.INDEX + NONINDEX + [None]
 
 
